@@ -24,14 +24,16 @@ def main():
     a = sys.argv[1:]
     pid = a[0]
     name, needs, also, tier = pid, "", [], "quick"
+    wtdir = None
     i = 1
     while i < len(a):
         if a[i] == "--name": name = a[i+1]; i += 1
         elif a[i] == "--needs": needs = a[i+1]; i += 1
         elif a[i] == "--also": also = a[i+1].split(","); i += 1
         elif a[i] == "--tier": tier = a[i+1]; i += 1
+        elif a[i] == "--dir": wtdir = a[i+1]; i += 1
         i += 1
-    wt = "/tmp/seed/" + name if os.path.isdir("/tmp/seed/" + name) else "/tmp/seed/" + pid
+    wt = wtdir or ("/tmp/seed/" + name if os.path.isdir("/tmp/seed/" + name) else "/tmp/seed/" + pid)
     out = "/verif/seeded/" + name
     os.makedirs(out, exist_ok=True)
     rc, patch = sh("git diff", cwd=wt)
